@@ -82,6 +82,41 @@ def run_sel_case(case, pname, occ=0):
         check('biselect(field)[1]', lambda: n2, rest(tpos))
     except Exception as e:
         problems.append('biselect(field) raised %r' % (e,))
+    if pname == 'text' and all(len(r) >= case['f'] for r in case['rows']):
+        # selectin with a STRING as the container: Python's `in` is then the substring test (the documented predicate
+        # is literally `v in value`)
+        import re as _re2
+        container = u''.join(prof.conc(x) for x in (1, 2)) + u'zz'
+        wantp = [p for p, r in enumerate(rows, 1) if isinstance(r[case['f'] - 1], str) and r[case['f'] - 1] in container]
+        if all(isinstance(r[case['f'] - 1], str) for r in rows):
+            check('selectin(string container)', lambda: etl.selectin(t, fld, container), wantp)
+            check('selectnotin(string container)', lambda: etl.selectnotin(t, fld, container), rest(wantp))
+            # multi-character cells: substrings of the container that are not characters of it, the empty string
+            # (a substring of everything), and cells whose characters all occur in the container but not adjacently
+            fi = case['f'] - 1
+            t2 = [list(t[0])] + [list(r[:fi]) + [(u'' if r[fi] == prof.conc(2) else r[fi] + u'q' + (u'' if r[fi] != prof.conc(3) else prof.conc(1)))]
+                                 + list(r[fi + 1:]) for r in rows]
+            cont2 = prof.conc(1) + u'q' + prof.conc(3) + u'q'
+            wp2 = [p for p, r in enumerate(t2[1:], 1) if r[fi] in cont2]
+
+            def check2(label, fn, want_pos):
+                try:
+                    got = [tuple(r) for r in fn()][1:]
+                except Exception as e:
+                    problems.append('%s raised %r' % (label, e))
+                    return
+                want = [tuple(t2[p]) for p in want_pos]
+                if got != want:
+                    problems.append('%s delivered %r, the rows with `v in %r` are %r' % (label, got, cont2, want))
+            check2('selectin(string container, multi-character cells)', lambda: etl.selectin(t2, fld, cont2), wp2)
+            check2('selectnotin(string container, multi-character cells)', lambda: etl.selectnotin(t2, fld, cont2),
+                   [p for p in range(1, len(t2)) if p not in wp2])
+            # the same pattern searched first without and then with flags: flags must not be forgotten
+            pat = prof.conc(1).lower() if prof.conc(1).lower() != prof.conc(1) else prof.conc(1).upper()
+            w0 = [p for p, r in enumerate(rows, 1) if _re2.search(pat, r[case['f'] - 1])]
+            w1 = [p for p, r in enumerate(rows, 1) if _re2.search(pat, r[case['f'] - 1], _re2.I)]
+            check('search(%r)' % pat, lambda: etl.search(t, fld, pat), w0)
+            check('search(%r, flags=re.I) after the same pattern without flags' % pat, lambda: etl.search(t, fld, pat, flags=_re2.I), w1)
     # whole-row search with an anchored pattern: a row matches iff SOME cell, rendered as text, matches
     if pname in ('text', 'ints'):
         import re as _re
